@@ -213,7 +213,7 @@ func (d *D) Base(idx int, ctx *core.Ctx) *core.Scenario {
 		sc.Sealed["choices"] = fmt.Sprint(n)
 		sc.Sealed["matching"] = fmt.Sprint(r.Intn(1 << n)) // which choices output the question's output
 		sc.Sealed["multi"] = []string{"0", "1"}[r.Intn(2)]
-		sc.Sealed["form"] = fmt.Sprint(r.Intn(4))
+		sc.Sealed["form"] = fmt.Sprint(r.Intn(7)) // 0-1 inline text, 2-3 evy code blocks, 4-6 picture questions with linked programs
 		sc.Sealed["sealed_fm"] = []string{"0", "1"}[r.Intn(2)]
 	}
 	sc.Sealed["public_key"] = k.Public
@@ -554,6 +554,44 @@ func questionMD(answerLine string, multi bool, n, matching, form int) string {
 	return b.String()
 }
 
+// svgQuestion writes a picture question: the question is an evy:svg link, the
+// choices are evy:source links to programs that are really run. Wrong choices
+// include programs that draw exactly the question's picture and THEN fail, that
+// do not parse, and that draw nothing.
+func (d *D) svgQuestion(answerLine string, multi bool, n, matching, variant int) string {
+	d.n++
+	dir := fmt.Sprintf("pic%d", d.n%50)
+	abs := filepath.Join(d.workdir(), dir)
+	os.RemoveAll(abs)       //nolint:errcheck
+	os.MkdirAll(abs, 0o755) //nolint:errcheck
+	picture := []string{"move 10 10\ncircle 5\n", "move 20 30\nline 40 50\nrect 5 5\n", "color \"red\"\nmove 50 50\ncircle 10\nmove 0 0\nline 100 100\n"}[variant%3]
+	same := []string{picture, "// another way to write it\n" + picture, "x := 0\nx = x + 1\n" + picture}
+	wrong := []string{
+		picture + "a := [1]\nprint a[5]\n", // the same picture, then a run-time error
+		picture + "print 1 +\n",            // does not parse
+		"",                                 // draws nothing
+		picture + "move 1 1\ncircle 1\n",   // one shape too many
+		"width 3\n" + picture,              // slightly different
+		picture + "exit 3\n",
+	}
+	os.WriteFile(filepath.Join(abs, "q.evy"), []byte(picture), 0o644) //nolint:errcheck
+	at := "single-choice"
+	if multi {
+		at = "multiple-choice"
+	}
+	var b strings.Builder
+	fmt.Fprintf(&b, "---\ntype: question\ndifficulty: easy\nanswer-type: %s\n%s\n---\n\n## Generated picture question\n\nWhich program draws this?\n\n[question](%s/q.evy \"evy:svg\")\n\nChoose:\n\n", at, answerLine, dir)
+	for i := 0; i < n; i++ {
+		src := wrong[(i+matching+variant)%len(wrong)]
+		if matching&(1<<i) != 0 {
+			src = same[(i+variant)%len(same)]
+		}
+		os.WriteFile(filepath.Join(abs, fmt.Sprintf("c%d.evy", i)), []byte(src), 0o644) //nolint:errcheck
+		fmt.Fprintf(&b, "- [answer](%s/c%d.evy \"evy:source\")\n", dir, i)
+	}
+	return b.String()
+}
+
 func letters(set int, n int) string {
 	var ls []string
 	for i := 0; i < n; i++ {
@@ -616,6 +654,9 @@ func (d *D) runQuestion(sc *core.Scenario, ctx *core.Ctx) *core.Violation {
 			line = "sealed-answer: " + sealedValue
 		}
 		content := questionMD(line, multi, n, matching, form)
+		if form >= 4 {
+			content = d.svgQuestion(line, multi, n, matching, form)
+		}
 		usePriv := ""
 		if sealedFM {
 			usePriv = priv
@@ -647,7 +688,7 @@ func (d *D) runQuestion(sc *core.Scenario, ctx *core.Ctx) *core.Violation {
 				Expected: "verification accepts a question exactly when the marked choices are precisely the choices whose output equals the question's output",
 				Observed: obs, Match: map[string]string{"oracle": "verify-iff", "case": sig}}
 		}
-		if sealedFM {
+		if sealedFM && form < 4 {
 			// corrupt the sealed front matter value: Verify must fail to unseal, or give the verdict of the uncorrupted file
 			cs := corruptions(sealedValue, false)
 			r := prng.Derive(sc.Seed, uint64(sc.Index), uint64(marked), 77)
